@@ -71,8 +71,13 @@ static void merge_scenario(Report& rep, const char* name, uint64_t seed, int src
 		C10_CATCH_INJECTED(ok)
 		bool f = done(kind);
 		Counters c1 = snap();
-		MSet s1 = values(src), d1 = values(dst);
 		std::string tag = std::string(name) + " kind=" + std::to_string(kind) + " k=" + std::to_string(k) + (ok ? " (completed)" : " (threw)");
+		{	// structural validity first: walking an invalid tree would follow dangling pointers
+			std::string e1 = check_tree(src, 0), e2 = check_tree(dst, 0);
+			if (!e1.empty()) rep.fail(tag + ": source tree invalid: " + e1); if (!e2.empty()) rep.fail(tag + ": destination tree invalid: " + e2);
+			if (!e1.empty() || !e2.empty()) return false;
+		}
+		MSet s1 = values(src), d1 = values(dst);
 		if (plus(s1, d1) != init) rep.fail(tag + ": src+dst not conserved: " + diffstr(plus(s1, d1), init) + " src=" + show(s1) + " dst=" + show(d1) + " initial src=" + show(src0) + " dst=" + show(dst0));
 		if (!MD::multi && dup_keys(d1)) rep.fail(tag + ": duplicate key in unique destination " + show(d1));
 		if (!MS::multi && dup_keys(s1)) rep.fail(tag + ": duplicate key in unique source " + show(s1));
